@@ -369,7 +369,8 @@ define(
     ENGINE_TRUST[:3] + [
         'NumPy/SciPy ledger (uninterpreted): frozen t distribution with '
         'median / ppf / cdf / scale as functions of the distribution; '
-        'reshape, DataFrame(dict), df[names], tail keep the columns',
+        'reshape, DataFrame(dict), df[names], tail keep the columns; '
+        'sm.OLS(y, X).fit() is a function of the selected cells',
         'ASSUMED contracts (bodies not verified): '
         'TBR.causal_cumulative_distribution returns the posterior of the '
         'object for the given rescaling; TBR.causal_effect returns a series',
@@ -385,7 +386,10 @@ define(
     'lemma: lower <= estimate <= upper and precision = estimate - lower '
     'when the lower tail probability is <= 0.5 (the all-levels clause is the '
     'known finding); the aggregated analysis frame is ordered by (group, '
-    'date).  The posterior itself on every analysed day (vs Kerman '
+    'date); the pre-period model is the OLS fit of the treatment target cells '
+    'on a constant and the control target cells over exactly the rows whose '
+    'period is the pre-period (_fit_pre_period_model with _response_vector '
+    'and _design_matrix inlined; OLS uninterpreted).  The posterior itself on every analysed day (vs Kerman '
     'eq. 5) and its invariance to row order / geos per group / unassigned '
     'rows are a bounded run-time contract against a plain-NumPy oracle.',
     'DESIGN.md section 7, C06',
@@ -468,7 +472,8 @@ define(
     'C18', 'exploration',
     [('common_classes',
       ['EstimatedTimeSeriesWithConfidenceInterval.__init__'], False),
-     ('tbr', ['TBR._construct_analysis_data'], False),
+     ('tbr', ['TBR._construct_analysis_data', 'TBR._fit_pre_period_model'],
+      False),
      ('tbr_iroas', None, False)],
     ENGINE_TRUST[:3] + [
         'the series container is a DataFrame: after DataFrame.__init__ it has '
